@@ -23,7 +23,7 @@ def rp(rng, fam):
 
 
 def gen_pair(rng):
-    fam = rng.choice(['ll', 'll-vert', 'll-horiz', 'll-stem-bar', 'quad', 'quad-linear-x', 'cubic', 'cubic-elevated', 'cubic-straight', 'cubic-arch', 'cubic-vline', 'cubic-hline', 'cubic-near-elevated', 'cubic-near-straight', 'quad-near-linear'])
+    fam = rng.choice(['ll', 'll-vert', 'll-horiz', 'll-stem-bar', 'quad', 'quad-linear-x', 'cubic', 'cubic-elevated', 'cubic-straight', 'cubic-arch', 'cubic-vline', 'cubic-hline', 'cubic-near-elevated', 'cubic-near-straight', 'quad-near-linear', 'cubic-flat-end'])
     cf = rng.choice(['int', 'float'])
     def rline():
         return Line(rp(rng, cf), rp(rng, cf))
@@ -44,6 +44,23 @@ def gen_pair(rng):
         else: b = rline()
         if rng.random() < 0.5: a, b = b, a
         return fam, a, b
+    if fam == 'cubic-flat-end':
+        # three consecutive control points at the same signed distance from the line, the fourth on the other side: the depressed
+        # cubic along the line's normal has p = 0 (one real root; Cardano's two cube roots degenerate), exactly or nearly
+        y0 = float(rng.randint(-200, 200)); cdist = float(rng.randint(5, 150)); D = float(rng.randint(5, 200))
+        xs = sorted(float(rng.randint(-300, 300)) for _ in range(4))
+        if xs[3] - xs[0] < 10: xs[3] += 50.0
+        ys = [y0 - D, y0 + cdist, y0 + cdist, y0 + cdist]
+        if rng.random() < 0.5: ys.reverse()
+        if rng.random() < 0.5: ys = [2 * y0 - v for v in ys]
+        if rng.random() < 0.4: ys[rng.choice([1, 2])] += rng.choice([-1, 1]) * 10.0 ** -rng.randint(2, 7) * (cdist + D)
+        c = CubicBezier(*[P(x, y) for x, y in zip(xs, ys)])
+        l = Line(P(-400.0, y0), P(400.0, y0))
+        if rng.random() < 0.5:
+            ang = rng.uniform(0, 6.283); o = P(float(rng.randint(-50, 50)), float(rng.randint(-50, 50)))
+            c = c.rotated(o, ang); l = l.rotated(o, ang)
+        if rng.random() < 0.3: l = Line(l[1], l[0])
+        return fam, c, l
     if fam == 'quad': c = QuadraticBezier(rp(rng, cf), rp(rng, cf), rp(rng, cf))
     elif fam == 'quad-linear-x':
         a, b = rp(rng, cf), rp(rng, cf)
